@@ -18,6 +18,19 @@ THEOREMS = {
         "MG.C04.nonview_result_owns_fresh_memory",
         "MG.C04.inplace_write_is_confined",
     ],
+    "MG.Proofs.Lemmas.WriteRead": [
+        "MG.Eng.read_write_same",
+        "MG.Eng.write_frames_buffer",
+        "MG.Eng.write_frames_position",
+        "MG.Eng.write_frames_disjoint_window",
+    ],
+    "MG.Proofs.Lemmas.NDIndexLemmas": [
+        "MG.ND.ravel_unravel",
+        "MG.ND.positions_contig",
+        "MG.Eng.read_newArr",
+        "MG.ND.fstrides_eq_reverse_cstrides",
+        "MG.ND.fortran_is_transposed_c",
+    ],
 }
 
 GEN = dict(inplace=True, p_inplace=0.4, p_view=0.35, p_fail=0.0, p_const=0.15, n_stmts=10, final_back=False)
@@ -123,11 +136,58 @@ def run(ctx: Ctx) -> Outcome:
         if v.signature not in seen:
             seen.add(v.signature)
             out.violations.append(v)
+    korder_corr(ctx, out)
     out.assumptions = ["advanced-index assignment whose value aliases the target (NumPy's result is order-dependent there) is excluded",
                        "H_fresh: leaves own fresh memory (tensors made with copy=False from overlapping user arrays are outside the model)",
-                       "result layout of element-wise kernels is modelled as C order; `reshape` is generated only where the model "
-                       "knows the exact strides (NumPy's 'K'-order allocation rule is not modelled)"]
+                       "owner tensors are C- or Fortran-ordered leaves; the copy of the base made by an in-place update is laid out "
+                       "by NumPy's 'K' rule (modelled, korderStrides, tied to NumPy on every run); the result layout of element-wise "
+                       "kernels on non-C-contiguous operands is not modelled: `reshape` is generated only where the model knows the strides"]
     return out
+
+
+def korder_corr(ctx, out):
+    """tie of the model's `korderStrides` (layout of `np.copy(a, order='K')`, used for the copy of the base that an
+    in-place update mutates) to NumPy itself, on random C/Fortran arrays under transposes, strided/reversed slices and
+    new axes; strides of axes of length 1 are not compared (they address nothing)"""
+    from ..core import CorrBreak
+    from ..leanbuild import run_driver
+
+    rng = ctx.rng("korder")
+    lines, exp = [], []
+    for _ in range(ctx.n(400, 4000)):
+        shape = [rng.choice([1, 2, 3, 4]) for _ in range(rng.randint(1, 4))]
+        a = np.arange(int(np.prod(shape)), dtype=np.int64).reshape(shape)
+        if rng.random() < 0.35:
+            a = np.asfortranarray(a)
+        for _ in range(rng.randint(0, 3)):
+            k = rng.choice(["tr", "sl", "na"])
+            if k == "tr":
+                p = list(range(a.ndim))
+                rng.shuffle(p)
+                a = a.transpose(p)
+            elif k == "sl":
+                sl = [slice(None)] * a.ndim
+                sl[rng.randrange(a.ndim)] = slice(None, None, rng.choice([1, 2, -1, -2]))
+                a = a[tuple(sl)]
+            else:
+                a = np.expand_dims(a, rng.randint(0, a.ndim))
+        if a.size == 0:
+            continue
+        st = [x // 8 for x in a.strides]
+        lines.append("eng kstrides %s %s" % (",".join(map(str, a.shape)), ",".join(map(str, st))))
+        exp.append((list(a.shape), st, [x // 8 for x in np.copy(a, order="K").strides]))
+    got = run_driver(lines, driver="MG/DriverEng.lean")
+    bad = 0
+    for (sh, st, e), o in zip(exp, got):
+        m = [int(x) for x in o.split(",")] if o and o != "bad-op" else None
+        if m is None or len(m) != len(e) or any(d != 1 and x != y for d, x, y in zip(sh, e, m)):
+            bad += 1
+            if bad <= 3:
+                out.corr_breaks.append(CorrBreak("K-order copy layout: korderStrides vs NumPy",
+                                                 {"shape": sh, "strides": st, "numpy": e, "model": o}))
+    out.traces_validated += len(exp)
+    out.stats["korder_layout_cases"] = len(exp)
+    out.stats["korder_layout_noncontiguous"] = sum(1 for sh, st, e in exp if st != e)
 
 
 def run_shape_steps(steps):
@@ -263,9 +323,14 @@ MANIFEST = {
             "existing tensor can share (nonview_result_owns_fresh_memory); two windows share memory iff same "
             "buffer and a common position (shares_iff_positions); the guarded kernel call of an in-place update "
             "writes only the fresh copy of the base, never memory the placeholders still point at "
-            "(inplace_write_is_confined). The direct oracle executes the same statements on plain ndarrays.",
-    "note": "Trusted: Lean kernel, standard axioms, the correspondence harness; NumPy's 'K'-order result layout "
-            "is not modelled (reshape is generated only on tensors whose strides the model knows). The end-to-end "
+            "(inplace_write_is_confined); a write through a window with pairwise distinct in-range positions is read "
+            "back exactly and leaves every other buffer, every position outside the window and hence every window "
+            "disjoint from it unchanged (read_write_same, write_frames_*); C-order ravel/unravel are inverse, a "
+            "contiguous window addresses its buffer in order, a fresh array reads back its values, and a "
+            "Fortran-ordered array is the .T of the C-ordered array of the reversed shape (fortran_is_transposed_c). The direct oracle executes the same statements on plain ndarrays.",
+    "note": "Trusted: Lean kernel, standard axioms, the correspondence harness; Owner tensors are C- or "
+            "Fortran-ordered; np.copy's 'K' layout is modelled and tied to NumPy; the 'K'-order *result* layout of element-wise "
+            "kernels is not modelled (reshape is generated only on tensors whose strides the model knows). The end-to-end "
             "refinement 'heap after an in-place update = NumPy buffer write, for a whole view forest' is "
             "validated by correspondence + NumPy twin on every run, not proved (named gap "
             "inplace_refines_numpy_forest). `.shape =` followed by in-place updates is false of the unchanged "
